@@ -8,7 +8,6 @@ Section Meta.
   Variable fl : file.
   Variable cfg : config.
   Variable glob : globals.
-  Variable budget : option N.
   Variable regexes : list rx.
   Variable find : rx -> str -> option (list (option (N * N))).
   Variable call : ident -> graph -> list value -> res (value * graph).
@@ -30,7 +29,7 @@ Section Meta.
   Hypothesis Phi_push_lstmt : forall st, Phi (push_lstmt st).
   Hypothesis Phi_set_lparams : forall l, Phi (set_lparams l).
   Hypothesis Phi_set_lprev : forall l, Phi (set_lprev l).
-  Hypothesis Phi_lpoll : forall l, Phi (lpoll budget l).
+  Hypothesis Phi_lpoll : forall l, Phi (lpoll l).
   Hypothesis Phi_ladd_node : Phi ladd_node.
   Hypothesis Phi_ladd_node_attr : forall n k v, Phi (ladd_node_attr n k v).
   Hypothesis Phi_lcall : forall f args, Phi (lcall_function call f args).
@@ -71,7 +70,7 @@ Section Meta.
           | match goal with |- Phi (if ?x then _ else _) => destruct x end ].
   Ltac phi := repeat phi_step.
 
-  Lemma Phi_lpoll_n n l : Phi (lpoll_n budget n l).
+  Lemma Phi_lpoll_n n l : Phi (lpoll_n n l).
   Proof. induction n as [|n IH]; cbn [lpoll_n]; [apply Phi_ret|]. apply Phi_bind; [apply Phi_lpoll|intros _; exact IH]. Qed.
   Lemma Phi_lopt_node_attr n name v : Phi (lopt_node_attr n name v). Proof. unfold lopt_node_attr. phi. Qed.
   Lemma Phi_lpush_frame : Phi lpush_frame. Proof. unfold lpush_frame. phi. Qed.
@@ -109,9 +108,9 @@ Section Meta.
     destruct (nmap_get values n); [|apply IHp]. destruct (dbg_get dbgs n); [apply Phi_fail_in; exact I|apply Phi_panic].
   Qed.
 
-  Notation eval_lv' := (eval_lv t fl budget call).
-  Notation force_thunk' := (force_thunk t fl budget call).
-  Notation force_scoped' := (force_scoped t fl budget call).
+  Notation eval_lv' := (eval_lv t fl call).
+  Notation force_thunk' := (force_thunk t fl call).
+  Notation force_scoped' := (force_scoped t fl call).
 
   Lemma Phi_eval_all : forall fuel,
     (forall lv, Phi (eval_lv' fuel lv)) /\ (forall loc, Phi (force_thunk' fuel loc)) /\ (forall name cell, Phi (force_scoped' fuel name cell)).
@@ -140,10 +139,10 @@ Section Meta.
   Lemma Phi_force_thunk fuel loc : Phi (force_thunk' fuel loc). Proof. apply Phi_eval_all. Qed.
   Lemma Phi_force_scoped fuel name cell : Phi (force_scoped' fuel name cell). Proof. apply Phi_eval_all. Qed.
 
-  Lemma Phi_eval_as_gnode fuel lv : Phi (eval_as_gnode t fl budget call fuel lv).
+  Lemma Phi_eval_as_gnode fuel lv : Phi (eval_as_gnode t fl call fuel lv).
   Proof. unfold eval_as_gnode. apply Phi_bind; [apply Phi_eval_lv|intros v; apply Phi_lift, base_as_gnode]. Qed.
 
-  Lemma Phi_eval_lstmt fuel st : Phi (eval_lstmt t fl budget call fuel st).
+  Lemma Phi_eval_lstmt fuel st : Phi (eval_lstmt t fl call fuel st).
   Proof.
     unfold eval_lstmt. apply Phi_bind; [apply Phi_lpoll|intros _]. destruct st.
     - apply Phi_ctx. apply Phi_bind; [apply Phi_ctx, Phi_eval_as_gnode|intros n]. apply Phi_iterM. intros a.
@@ -156,7 +155,7 @@ Section Meta.
     - apply Phi_ctx. apply Phi_iterM. intros a. destruct a; [|apply Phi_ret]. apply Phi_bind; [apply Phi_eval_lv|intros _; apply Phi_ret].
   Qed.
 
-  Lemma Phi_evaluate_phase fuel : Phi (evaluate_phase t fl budget call fuel).
+  Lemma Phi_evaluate_phase fuel : Phi (evaluate_phase t fl call fuel).
   Proof.
     unfold evaluate_phase. apply Phi_bind; [apply Phi_get|intros s].
     apply Phi_bind; [apply Phi_iterM; intros; apply Phi_eval_lstmt|intros _].
@@ -171,7 +170,7 @@ Section Meta.
   Qed.
 
   (* ---- execution phase ---- *)
-  Notation leval' := (leval t fl glob budget call).
+  Notation leval' := (leval t fl glob call).
   Lemma Phi_leval : forall fuel le e, Phi (leval' fuel le e).
   Proof.
     induction fuel as [|fuel IH]; intros le e; [apply Phi_oof|].
@@ -190,19 +189,19 @@ Section Meta.
     - apply Phi_bind; [apply Hcomp|intros out; apply Phi_ret].
     - apply Phi_bind; [apply Hcomp|intros out; apply Phi_ret].
   Qed.
-  Lemma Phi_leager fuel le e : Phi (leager t fl glob budget call fuel le e).
+  Lemma Phi_leager fuel le e : Phi (leager t fl glob call fuel le e).
   Proof. unfold leager. apply Phi_bind; [apply Phi_leval|intros lv; apply Phi_eval_lv]. Qed.
-  Lemma Phi_lvar_add fuel le v x m : Phi (lvar_add t fl glob budget call fuel le v x m).
+  Lemma Phi_lvar_add fuel le v x m : Phi (lvar_add t fl glob call fuel le v x m).
   Proof.
     destruct v; cbn [lvar_add]; [apply Phi_lunscoped_add|]. destruct m; [apply Phi_fail; exact I|].
     apply Phi_bind; [apply Phi_leval|intros sv]. apply Phi_bind; [apply Phi_store_add|intros var]. apply Phi_scoped_store_add.
   Qed.
   Lemma Phi_lvar_set fuel le v x : Phi (lvar_set glob fuel le v x).
   Proof. destruct v; cbn [lvar_set]; [apply Phi_lunscoped_set|apply Phi_fail; exact I]. Qed.
-  Lemma Phi_ltest_cond fuel le c : Phi (ltest_cond t fl glob budget call fuel le c).
+  Lemma Phi_ltest_cond fuel le c : Phi (ltest_cond t fl glob call fuel le c).
   Proof. destruct c; cbn [ltest_cond]; (apply Phi_bind; [apply Phi_leager|intros v]); try apply Phi_ret. apply Phi_lift, base_as_bool. Qed.
 
-  Notation lexec_attr' := (lexec_attr t fl glob budget call).
+  Notation lexec_attr' := (lexec_attr t fl glob call).
   Lemma Phi_lexec_attr : forall fuel le a, Phi (lexec_attr' fuel le a).
   Proof.
     induction fuel as [|fuel IH]; intros le a; [apply Phi_oof|].
@@ -215,7 +214,7 @@ Section Meta.
 
   Lemma Phi_lscan_loop run_arm arms rs subject :
     (forall caps body, Phi (run_arm caps body)) ->
-    forall sfuel i, Phi (lscan_loop budget find run_arm arms rs subject sfuel i).
+    forall sfuel i, Phi (lscan_loop find run_arm arms rs subject sfuel i).
   Proof.
     intros Hrun. induction sfuel as [|sfuel IHs]; intros i; cbn [lscan_loop]; [apply Phi_oof|].
     destruct (N.ltb i (N.of_nat (length subject))); [|apply Phi_ret]. cbv zeta.
@@ -237,7 +236,7 @@ Section Meta.
     apply Phi_bind; [apply Hr|intros _]. apply Phi_lpop_frame.
   Qed.
 
-  Notation lexec_stmt' := (lexec_stmt t fl cfg glob budget regexes find call).
+  Notation lexec_stmt' := (lexec_stmt t fl cfg glob regexes find call).
   Lemma Phi_lexec_stmt : forall fuel le s, Phi (lexec_stmt' fuel le s).
   Proof.
     induction fuel as [|fuel IH]; intros le s; [apply Phi_oof|].
@@ -269,13 +268,13 @@ Section Meta.
       apply Phi_bind; [apply Phi_lunscoped_add|intros _]. apply (Hblock le body).
   Qed.
 
-  Lemma Phi_lexec_stanza fuel st m : Phi (lexec_stanza t fl cfg glob budget regexes find call fuel st m).
+  Lemma Phi_lexec_stanza fuel st m : Phi (lexec_stanza t fl cfg glob regexes find call fuel st m).
   Proof.
     unfold lexec_stanza. apply Phi_bind; [apply Phi_lpoll|intros _]. apply Phi_bind; [apply Phi_lclear_frame|intros _].
     cbv zeta. apply Phi_bind; [apply Phi_lfull_match_node|intros n]. apply Phi_iterM. intros s. apply Phi_ctx, Phi_lexec_stmt.
   Qed.
 
-  Theorem Phi_lexec_file fuel ms : Phi (lexec_file t fl cfg glob budget regexes find call fuel ms).
+  Theorem Phi_lexec_file fuel ms : Phi (lexec_file t fl cfg glob regexes find call fuel ms).
   Proof.
     unfold lexec_file. apply Phi_bind; [|intros _; apply Phi_evaluate_phase]. apply Phi_iterM. intros pm.
     destruct (nth_error (f_stanzas fl) (N.to_nat (fst pm))); [apply Phi_lexec_stanza|apply Phi_panic].
